@@ -60,6 +60,11 @@ func genOptCases(res *vlib.Result, seed uint64, n int) []string {
 		v := opt.VerifGetters(o, x.Ro(), x.Wo())
 		c := renderOptCase(raw, x, v)
 		cases = append(cases, c)
+		// (P) documentation oracle for the level-indexed getters
+		if d := docOracle(raw); d != "" {
+			res.Count("kopt_doc_oracle_failures", 1)
+			res.ViolateWith("option getter disagrees with its documentation: "+d, &OptScenario{Name: "getter-oracle", Relation: "documented formula", Raw: *raw, GetterOracle: true}, "", nil)
+		}
 		// distribution: which branches of the getters the value reaches
 		res.Count("kopt_cases", 1)
 		if raw.Nil {
